@@ -55,7 +55,7 @@ namespace {
       for (int i = 0; i < n; ++i) {
         J op = J::object();
         op["a"] = J(int(plan.below(uint64_t(T))));
-        const int k = int(plan.below(20));
+        const int k = int(plan.below(25));
         switch (k) {
         case 0:
         case 1:
@@ -119,13 +119,46 @@ namespace {
           op["l"] = J(int(plan.below(N_LOCAL)));
           op["v"] = J(v++);
           break;
-        default:
+        case 18:
           op["k"] = J("bg");
           op["f"] = J(int(plan.below(N_FN)));
           op["n"] = J(int(plan.range(5, 40)));
           break;
+        case 19:
+        case 22:
+        case 23:
+          op["k"] = J("bg_use"); // use() of the two-part file, free-running: may overlap get_state / set_state of the chain
+          break;
+        default:
+          op["k"] = J("use2check");
+          break;
         }
         ops.push(std::move(op));
+      }
+      // directed scenario (swarm bias: put the snapshot where in-flight state exists): a background
+      // use() of the two-part file by one actor, a snapshot by another actor right then, a restore of
+      // exactly that snapshot later, and the consistency check
+      if (T >= 2 && plan.chance(350)) {
+        const int x = int(plan.below(uint64_t(T)));
+        const int y = (x + 1 + int(plan.below(uint64_t(T - 1)))) % T;
+        auto mk = [&](int a, const char *k) {
+          J op = J::object();
+          op["a"] = J(a);
+          op["k"] = J(k);
+          return op;
+        };
+        ops.push(mk(x, "bg_use"));
+        ops.push(mk(y, "get_state"));
+        const int snap_index = snaps++;
+        J d = mk(y, "def");
+        d["f"] = J(int(plan.below(N_FN)));
+        d["s"] = J(int(plan.below(N_SIG)));
+        d["v"] = J(v++);
+        ops.push(d);
+        J ss = mk(y, "set_state");
+        ss["i"] = J(snap_index);
+        ops.push(ss);
+        ops.push(mk(y, "use2check"));
       }
       p["sched"] = gen_sched(sched, T, uint64_t(n) * 40);
       return p;
@@ -141,6 +174,8 @@ namespace {
       for (int u = 0; u < N_FILE; ++u) {
         write_file(dir + "u" + std::to_string(u) + ".chai", "bump(" + std::to_string(u) + ")\ndef from_u" + std::to_string(u) + "() { " + std::to_string(7000 + u) + " }\n");
       }
+      // a file in two parts with a scheduling point in between: a snapshot must never contain half of it
+      write_file(dir + "two_part.chai", "def from_part_a() { 1 }\nyield_here()\ndef from_part_b() { 2 }\n");
       auto chai = make_engine({dir});
       Engine &e = *chai;
       std::atomic<int> bumps[N_FILE];
@@ -149,6 +184,12 @@ namespace {
       }
       e.add(fun([&bumps](int u) { bumps[u % N_FILE].fetch_add(1); }), "bump");
       e.add(fun([]() -> int { throw std::runtime_error("boom"); }), "boom");
+      e.add(fun([]() {
+              for (int i = 0; i < 8; ++i) {
+                sim_yield(7, nullptr); // a wide window in the middle of the file
+              }
+            }),
+            "yield_here");
 
       Model model;
       std::vector<Model> snap_models;
@@ -164,7 +205,7 @@ namespace {
       {
         int last = -1;
         for (size_t i = 0; i < ops.size(); ++i) {
-          if (ops[i].at("k").str() != "bg") {
+          if (ops[i].at("k").str() != "bg" && ops[i].at("k").str() != "bg_use") {
             dep[i] = last;
             last = int(i);
           }
@@ -259,6 +300,22 @@ namespace {
         for (size_t oi : mine[size_t(a)]) {
           const J &op = ops[oi];
           const std::string k = op.at("k").str();
+          if (k == "bg_use") {
+            OpScope scope;
+            const bool overlapping = chain_in_progress.load() != 0;
+            const std::string out = eval_show(e, "use(\"two_part.chai\")");
+            // a concurrent set_state may remove part a between the two definitions, or restore a state in
+            // which they exist already: both make the evaluation fail cleanly; anything else is not clean
+            if (out[0] != '=' && !is_err(out) && out.rfind("!Boxed_Value|eval_error", 0) != 0) {
+              bad(oi, "background-eval-unclean", out);
+            }
+            if (overlapping) {
+              cnt[size_t(a)]["probe_background_use_overlapped_chain_op"] += 1;
+            }
+            sim_log(3, uint64_t(oi), fnv1a(out.substr(0, 1)));
+            done[oi].store(1);
+            continue;
+          }
           if (k == "bg") {
             // free-running evaluation, concurrent with the chain
             OpScope scope;
@@ -389,6 +446,19 @@ namespace {
                 if (i + 1 < snap_states.size()) {
                   cnt[size_t(a)]["probe_restored_older_than_latest_snapshot"] += 1;
                 }
+              }
+            } else if (k == "use2check") {
+              // whatever snapshots were taken and restored while a background use() was in flight:
+              // once use() has returned normally, everything the file defines must be there
+              out = eval_show(e, "use(\"two_part.chai\")");
+              if (out[0] == '=') {
+                const std::string pa = eval_show(e, "from_part_a()"), pb = eval_show(e, "from_part_b()");
+                if (pa != "=i:1" || pb != "=i:2") {
+                  bad(oi, "used-file-record-without-its-definitions", "use(two_part.chai) returned " + out + " but from_part_a() -> " + pa + ", from_part_b() -> " + pb);
+                }
+                cnt[size_t(a)]["probe_two_part_file_checked"] += 1;
+              } else if (!is_err(out) && out.rfind("!Boxed_Value|eval_error", 0) != 0) {
+                bad(oi, "use-failed", out);
               }
             } else if (k == "local") {
               const int l = int(num("l")) % N_LOCAL;
